@@ -22,6 +22,7 @@ PROPS = {}
 PENDING = {}
 
 PROPS['C01'] = dict(
+    trusted=["T3L: the loop translator verif/extract/loops.go with its binding tables and the Go-semantics kit Model/GoSem.lean (w64/u64 wrap-around, truncating division, memory of arrays with bounds-checked slices, copy as memmove, make failing beyond the int range): the Tie/Loops*.lean theorems are about the translation; that the translation means what the Go compiler means is trusted"],
     id='C01',
     modules=['CollectionModel.Props.C01', 'CollectionModel.Tie.Fns', 'CollectionModel.Tie.LoopsList', 'CollectionModel.Tie.LoopsArray'],
     key=seq_key, nontrivial=seq_nontrivial,
@@ -43,6 +44,7 @@ def stack_key(l):
             len(l.get('pre', [])) == l.get('cap'), size_class(len(l.get('vs', []))))
 
 PROPS['C13'] = dict(
+    trusted=["T3L: the loop translator verif/extract/loops.go with its binding tables and the Go-semantics kit Model/GoSem.lean (w64/u64 wrap-around, truncating division, memory of arrays with bounds-checked slices, copy as memmove, make failing beyond the int range): the Tie/Loops*.lean theorems are about the translation; that the translation means what the Go compiler means is trusted"],
     id='C13',
     modules=['CollectionModel.Props.C13', 'CollectionModel.Tie.Facts', 'CollectionModel.Tie.LoopsStack'],
     key=stack_key, nontrivial=lambda l: l.get('op') not in ('getSize', 'isEmpty', 'getCapacity'),
@@ -65,6 +67,7 @@ def iter_key(l):
             l.get('after'), l.get('it'))
 
 PROPS['C17'] = dict(
+    trusted=["T3L: the loop translator verif/extract/loops.go with its binding tables and the Go-semantics kit Model/GoSem.lean (w64/u64 wrap-around, truncating division, memory of arrays with bounds-checked slices, copy as memmove, make failing beyond the int range): the Tie/Loops*.lean theorems are about the translation; that the translation means what the Go compiler means is trusted"],
     id='C17',
     modules=['CollectionModel.Props.C17', 'CollectionModel.Tie.Fns', 'CollectionModel.Tie.LoopsArray'],
     key=iter_key, nontrivial=lambda l: True,
@@ -78,6 +81,7 @@ PROPS['C17'] = dict(
 )
 
 PROPS['C09'] = dict(
+    trusted=["T3L: the loop translator verif/extract/loops.go with its binding tables and the Go-semantics kit Model/GoSem.lean (w64/u64 wrap-around, truncating division, memory of arrays with bounds-checked slices, copy as memmove, make failing beyond the int range): the Tie/Loops*.lean theorems are about the translation; that the translation means what the Go compiler means is trusted"],
     id='C09',
     modules=['CollectionModel.Props.C09', 'CollectionModel.Tie.LoopsSorter', 'CollectionModel.Props.C09Source'],
     key=lambda l: (l.get('via'), l.get('op'), l.get('rk'), size_class(l.get('n', 0)) if l.get('n', 0) < 40 else 6 + min(l.get('n', 0) // 300, 4), l.get('out')),
@@ -99,6 +103,7 @@ def set_key(l):
             str(l.get('res'))[:12] if l.get('op') in ('containsValue', 'containsAny', 'containsAll') else '')
 
 PROPS['C02'] = dict(
+    trusted=["T3L: the loop translator verif/extract/loops.go with its binding tables and the Go-semantics kit Model/GoSem.lean (w64/u64 wrap-around, truncating division, memory of arrays with bounds-checked slices, copy as memmove, make failing beyond the int range): the Tie/Loops*.lean theorems are about the translation; that the translation means what the Go compiler means is trusted"],
     id='C02',
     modules=['CollectionModel.Props.C02', 'CollectionModel.Tie.LoopsSet'],
     key=set_key, nontrivial=lambda l: l.get('op') != 'make',
@@ -113,6 +118,7 @@ PROPS['C02'] = dict(
 )
 
 PROPS['C15'] = dict(
+    trusted=["T3L: the loop translator verif/extract/loops.go with its binding tables and the Go-semantics kit Model/GoSem.lean (w64/u64 wrap-around, truncating division, memory of arrays with bounds-checked slices, copy as memmove, make failing beyond the int range): the Tie/Loops*.lean theorems are about the translation; that the translation means what the Go compiler means is trusted"],
     id='C15',
     modules=['CollectionModel.Props.C15', 'CollectionModel.Tie.LoopsSet'],
     key=set_key, nontrivial=lambda l: len(l.get('vs', [])) + len(l.get('ws', [])) > 0,
@@ -154,6 +160,7 @@ PROPS['C03'] = dict(
 )
 
 PROPS['C16'] = dict(
+    trusted=["T3L: the loop translator verif/extract/loops.go with its binding tables and the Go-semantics kit Model/GoSem.lean (w64/u64 wrap-around, truncating division, memory of arrays with bounds-checked slices, copy as memmove, make failing beyond the int range): the Tie/Loops*.lean theorems are about the translation; that the translation means what the Go compiler means is trusted"],
     id='C16', modules=['CollectionModel.Props.C16', 'CollectionModel.Tie.LoopsList'], key=lambda l: (l.get('k'), l.get('op'), l.get('out'), size_class(len(l.get('ps', l.get('vs', [])))), size_class(len(l.get('qs', l.get('ws', [])))), l.get('alias', ''), size_class(len(l.get('post', [])))),
     nontrivial=lambda l: len(l.get('ps', l.get('vs', []))) + len(l.get('qs', l.get('ws', []))) > 0,
     rule="cases = one Merge / Extract / Concatenate call on freshly built operands with purity probes (operands re-read after "
@@ -336,6 +343,7 @@ def heap_key(l):
     return (l.get('label', '').split('/n')[0], tuple(sorted(set(cls(o) for o in ops), key=str))[:12], size_class(len(ops)))
 
 PROPS['C18'] = dict(
+    trusted=["T3L: the loop translator verif/extract/loops.go with its binding tables and the Go-semantics kit Model/GoSem.lean (w64/u64 wrap-around, truncating division, memory of arrays with bounds-checked slices, copy as memmove, make failing beyond the int range): the Tie/Loops*.lean theorems are about the translation; that the translation means what the Go compiler means is trusted"],
     id='C18', modules=['CollectionModel.Props.C18', 'CollectionModel.Tie.LoopsArray'], key=heap_key,
     nontrivial=lambda l: any(o.get('op') in ('goWrite', 'goPairWrite', 'goMapSet', 'goMapDelete', 'setValue', 'setValues', 'appendValues',
                                              'insertValues', 'addValues', 'removeValues', 'reverse', 'sort', 'putValue', 'dropKey') for o in l.get('ops', [])),
